@@ -223,6 +223,9 @@ package ecs
 //@   ensures r == lsComps(self)
 //@ iface Listener.Notify(self, world, evt)
 //@   flag nodirty
+//@   requires world != nil
+//@   requires (evt.EventTypes & event.EntityRemoved) != 0 ==> isLocked(world)
+//@   requires (evt.EventTypes & event.EntityRemoved) == 0 ==> !isLocked(world)
 //@   ensures notifyCount[self.val] == old(notifyCount[self.val]) + 1
 //@   ensures notifyLast[self.val] == evtId(evt)
 //@   modifies notifyCount[self.val], notifyLast[self.val]
@@ -650,11 +653,12 @@ package ecs
 //@ func archetype.Init(a, node, data, index, forStorage, layouts, relation)
 //@   flag trusted
 //@   requires layouts >= 16
+//@   ensures a.node == node && a.archetypeData == data && a.archetypeAccess.RelationTarget == relation && a.len == 0
 //@   modifies *a, *data, node.IsActive
 //@ func archNode.CreateArchetype(a, layouts, target) (arch)
 //@   flag trusted
 //@   requires layouts >= 16
-//@   ensures arch != nil
+//@   ensures arch != nil && arch.node == a && arch.archetypeData != nil && arch.archetypeAccess.RelationTarget == target && arch.len == 0
 //@   modifies all(nodeData.freeIndices), all(archetypeData.index)
 //@ func archNode.SetArchetype(a, arch)
 //@   flag trusted
@@ -665,6 +669,7 @@ package ecs
 //@   requires regInv(&w.registry) && node != nil
 //@   flag convcheck nodirty noframe
 //@   ensures arch != nil
+//@   ensures node.HasRelation ==> arch.node == node && arch.archetypeAccess.RelationTarget == target && arch.archetypeData != nil
 //@   modifies *(&w.archetypes), *(&w.archetypeData), all(nodeData.freeIndices), all(archetypeData.index), all(cacheEntry.Indices), all(nodeData.archetype), all(archNode.IsActive)
 
 // ---------------------------------------------------------------------------------------------
@@ -1140,7 +1145,7 @@ package ecs
 // (Added = new \ old, Removed = old \ new, relation pointers, old target, type bits = kinds of change).
 //@ func World.notifyExchange(w, arch, oldMask, entity, add, rem, oldTarget, oldRel)
 //@   props C11 C12
-//@   requires arch != nil && oldMask != nil && w.listener != nil
+//@   requires arch != nil && oldMask != nil && w.listener != nil && !isLocked(w)
 //@   requires oldRel != nil ==> validID(oldRel.id)
 //@   requires validID(arch.archetypeAccess.RelationComponent.id)
 //@   ensures notifyCount[w.listener.val] == old(notifyCount[w.listener.val]) + ite(exchSelected(w, arch, oldMask, len(add), len(rem), oldTarget, oldRel), 1, 0)
@@ -1159,6 +1164,12 @@ package ecs
 
 //@ func World.exchange(w, entity, add, rem, relation, hasRelation, target)
 //@   props C11
+//@   requires lockInv(&w.locks) && regInv(&w.registry) && idsValid(add) && idsValid(rem) && validID(relation.id)
+//@   requires int(entity.id) < len(w.entityPool.entities) && len(w.entities) == len(w.entityPool.entities)
+//@   requires entAlive(w, entity) ==> w.entities[int(entity.id)].arch != nil && w.entities[int(entity.id)].arch.node != nil && w.entities[int(entity.id)].index < w.entities[int(entity.id)].arch.len
+//@   requires hasRelation && target.id != 0 ==> int(target.id) < len(w.entityPool.entities)
+//@   requires bitSetCovers(&w.targetEntities, len(w.entities))
+//@   requires entAlive(w, entity) ==> int(w.entities[int(entity.id)].arch.archetypeAccess.RelationTarget.id) < len(w.entities)
 //@   flag may_panic noframe
 //@   ensures w.listener == nil ==> notifyCount[w.listener.val] == old(notifyCount[w.listener.val])
 
@@ -1418,7 +1429,7 @@ package ecs
 //@   ensures len(add) == 0 && len(rem) == 0 ==> arch == nil && oldMask == nil && oldRel == nil
 //@   ensures len(add) > 0 || len(rem) > 0 ==> arch != nil && oldMask != nil && validID(arch.archetypeAccess.RelationComponent.id)
 //@   ensures oldRel != nil ==> validID(oldRel.id)
-//@   ensures w.listener == old(w.listener)
+//@   ensures w.listener == old(w.listener) && !isLocked(w)
 //@   ensures len(add) > 0 || len(rem) > 0 ==> w.entities[int(entity.id)].arch == arch && w.entities[int(entity.id)].index == old(arch.len)
 //@   ensures (len(add) > 0 || len(rem) > 0) && arch.archetypeAccess.HasRelationComponent ==>
 //@       arch.archetypeAccess.RelationTarget == old(newTarget(w, w.entities[int(entity.id)].arch, rem, hasRelation, target))
@@ -1427,3 +1438,46 @@ package ecs
 //@   flag noframe
 //@   loop #1
 //@   inv (exists k int :: {rem[k]} 0 <= k && k < $i && specBit(w.registry.IsRelation, rem[k].id)) == false
+
+//@ func archNode.GetArchetype(a, target) (arch, ok)
+//@   flag trusted
+//@   ensures ok ==> arch != nil && arch.node == a && arch.archetypeData != nil && (a.HasRelation ==> arch.archetypeAccess.RelationTarget == target)
+
+// setRelation: the entity moves to the table of its node with the requested target (no move when the target is unchanged).
+//@ func World.setRelation(w, entity, comp, target)
+//@   props C05 C10 C11
+//@   requires lockInv(&w.locks) && regInv(&w.registry) && validID(comp.id)
+//@   requires int(entity.id) < len(w.entityPool.entities) && len(w.entities) == len(w.entityPool.entities) && bitSetCovers(&w.targetEntities, len(w.entities))
+//@   requires target.id != 0 ==> int(target.id) < len(w.entityPool.entities)
+//@   requires entAlive(w, entity) ==> w.entities[int(entity.id)].arch != nil && w.entities[int(entity.id)].arch.node != nil && w.entities[int(entity.id)].index < w.entities[int(entity.id)].arch.len
+//@   flag nosafe may_panic panic_clean noframe
+//@   panics_if isLocked(w)
+//@   panics_if !entAlive(w, entity)
+//@   panics_if target.id != 0 && !entAlive(w, target)
+//@   panics_if !(w.entities[int(entity.id)].arch.node.HasRelation && w.entities[int(entity.id)].arch.node.Relation.id == comp.id)
+//@   ensures old(w.entities[int(entity.id)].arch.archetypeAccess.RelationTarget) != target ==>
+//@        w.entities[int(entity.id)].arch.archetypeAccess.RelationTarget == target && w.entities[int(entity.id)].arch.node == old(w.entities[int(entity.id)].arch.node)
+//@   ensures old(w.entities[int(entity.id)].arch.archetypeAccess.RelationTarget) == target ==> w.entities[int(entity.id)].arch == old(w.entities[int(entity.id)].arch)
+//@   loop #1
+//@   inv true
+
+//@ func World.cleanupArchetypes(w, target)
+//@   flag trusted nodirty
+
+// RemoveEntity: illegal calls panic before any change; the removal event is delivered before the removal, with the
+// entity still alive and the world locked by one extra lock that is released again; afterwards the handle is dead.
+//@ func World.RemoveEntity(w, entity)
+//@   props C02 C10 C11 C09
+//@   requires lockInv(&w.locks) && regInv(&w.registry) && poolInv(&w.entityPool) && issuedInv(&w.entityPool)
+//@   requires int(entity.id) < len(w.entityPool.entities) && len(w.entities) == len(w.entityPool.entities) && bitSetCovers(&w.targetEntities, len(w.entities))
+//@   requires entAlive(w, entity) ==> w.entityPool.eused[entity.id] && entity.id != 0
+//@   requires entAlive(w, entity) ==> w.entities[int(entity.id)].arch != nil && w.entities[int(entity.id)].arch.node != nil && w.entities[int(entity.id)].index < w.entities[int(entity.id)].arch.len
+//@   requires entAlive(w, entity) ==> validID(w.entities[int(entity.id)].arch.archetypeAccess.RelationComponent.id)
+//@   known C02-gen-wrap: requires w.entityPool.entities[int(entity.id)].gen != 4294967295
+//@   flag nosafe may_panic panic_clean noframe
+//@   panics_if isLocked(w)
+//@   panics_if !entAlive(w, entity)
+//@   ensures !entAlive(w, entity) && !w.entityPool.eused[entity.id] && w.entityPool.entities[int(entity.id)].gen == entity.gen + 1
+//@   ensures forall i eid :: {w.entityPool.eused[i]} i != entity.id ==> w.entityPool.eused[i] == old(w.entityPool.eused[i])
+//@   ensures poolInv(&w.entityPool) && issuedInv(&w.entityPool) && lockInv(&w.locks) && !isLocked(w)
+//@   ensures w.entities[int(entity.id)].arch == nil
